@@ -99,6 +99,23 @@ def family(draw, d):
     else:
         p2, n2, _ = draw(gen.payloads(d, mode="accepted", extra_bytes=False))
         out.append((p2, n2, "redrawn"))
+        # string-valued key fields: the same text with one more character appended (a NUL, a blank, an underscore, a digit) is a
+        # different raw value and must hash differently
+        exps, _, wf = canboat.ref_decode(d, base, nbytes)
+        for e in exps:
+            if e.field.pk and e.field.type == "STRING_LAU" and wf and e.bits and e.bits >= 16:
+                typ = (base >> (e.pos + 8)) & 0xFF
+                ch = draw(st.sampled_from(["\x00", " ", "_", "0", "A"]))
+                extra = ch.encode("ascii") if typ == 1 else ch.encode("utf-16-le")
+                L = e.bits // 8
+                if L + len(extra) > 255:
+                    continue
+                end = e.pos + e.bits
+                low = base & ((1 << end) - 1)
+                low = (low & ~(0xFF << e.pos)) | ((L + len(extra)) << e.pos)
+                spliced = low | (int.from_bytes(extra, "little") << end) | ((base >> end) << (end + 8 * len(extra)))
+                out.append((spliced, nbytes + len(extra), "key_changed"))
+                break
     return out
 
 
